@@ -129,10 +129,59 @@ func flatExec(lines []string) ([]string, []common.Failure) {
 				}
 				k++
 			}
+			if exp, ok := oFlatten(ms); ok {
+				var parts []string
+				for _, e := range exp {
+					parts = append(parts, common.Hex(e[0])+":"+e[1])
+				}
+				es := "-"
+				if len(parts) > 0 {
+					es = strings.Join(parts, ",")
+				}
+				if es != show(res) {
+					fails = append(fails, common.Failure{Sig: "flatten-wrong", What: fmt.Sprintf("FlattenMembers gives %s, promoting the members of embedded structs gives %s", show(res), es)})
+				}
+			}
 			outs[i] = show(res)
 		}()
 	}
 	return outs, fails
+}
+
+// oFlatten: the members a struct key is compared by, written from the description: the struct's own members in order, then –
+// embedded struct by embedded struct – the promoted members that are not hidden by an own member and not already there as
+// the very same member (same name, same type) along another path.  ok=false: two different members of one name meet (the
+// code panics; outside the accepted inputs).
+func oFlatten(ms []*flatMem) (out [][2]string, ok bool) {
+	top := map[string]bool{}
+	at := map[string]string{}
+	var emb []*flatMem
+	for _, m := range ms {
+		if m.embedded && m.isStruct {
+			emb = append(emb, m)
+			continue
+		}
+		out = append(out, [2]string{m.name, common.Itoa(m.ty)})
+		top[m.name] = true
+		at[m.name] = common.Itoa(m.ty)
+	}
+	for _, e := range emb {
+		sub, ok := oFlatten(e.sub)
+		if !ok {
+			return nil, false
+		}
+		for _, sm := range sub {
+			if t, found := at[sm[0]]; found {
+				if top[sm[0]] || t == sm[1] {
+					continue
+				}
+				return nil, false
+			}
+			out = append(out, sm)
+			at[sm[0]] = sm[1]
+		}
+	}
+	return out, true
 }
 
 func flatGen(c *common.Ctx) {
@@ -163,6 +212,26 @@ func flatGen(c *common.Ctx) {
 	for i := 0; i < n; i++ {
 		nextTy = 10
 		ms := gen(3)
+		if r.Chance(1, 5) {
+			// a diamond: two embedded structs that both carry the same member (same name, same type) in front of
+			// members of their own – the duplicate is skipped, what follows it must still be there
+			shared := &flatMem{name: r.Pick(names), ty: 1 + r.Intn(3)}
+			mk := func() *flatMem {
+				nextTy++
+				e := &flatMem{name: fmt.Sprintf("S%d", nextTy), embedded: true, isStruct: true, ty: nextTy}
+				for k := r.Intn(2); k > 0; k-- {
+					nextTy++
+					e.sub = append(e.sub, &flatMem{name: fmt.Sprintf("P%d", nextTy), ty: nextTy})
+				}
+				e.sub = append(e.sub, &flatMem{name: shared.name, ty: shared.ty})
+				for k := 1 + r.Intn(2); k > 0; k-- {
+					nextTy++
+					e.sub = append(e.sub, &flatMem{name: fmt.Sprintf("Q%d", nextTy), ty: nextTy})
+				}
+				return e
+			}
+			ms = append(ms, mk(), mk())
+		}
 		nested := false
 		for _, m := range ms {
 			for _, s := range m.sub {
